@@ -148,7 +148,10 @@ class Design:
     off = rng.choice([0, ww - w, rng.randint(0, ww - w)])
     rngk = (lo + off, w)
     # index: a whole 1-bit (or, for >= 4 elements, 2-bit) signal or struct leaf field that is readable
-    nb = 2 if len(elems) >= 4 and rng.random() < 0.6 else 1
+    # the implementation records a read of EVERY element for a signal-valued index; keep the model's reads identical by
+    # using only index widths that reach every element (2 elements / 1 bit, 4 elements / 2 bits)
+    if len(elems) not in (2, 4): return None
+    nb = 1 if len(elems) == 2 else 2
     sels = []
     for (g, l, x) in readable:
       sg = self.sigs[g]
